@@ -37,10 +37,11 @@ ASSUMPTIONS = ["the two data files emptied by the environment (SimSun_bad_len9, 
                "quick checks shipped data up to length 6, thorough every length"]
 REQUIRED = ["calls.write_bisc_files", "calls.read_bisc_file", "calls.PinWords.store_dfa_for_perm", "calls.PinWords.load_dfa_for_perm",
             "history.overwrites", "history.malformed_reads", "history.reads_decided", "dfa.loads_decided", "shipped.blocks_verified",
-            "shipped.files", "audit.open_events", "emptied_files.reported_invalid"]
+            "shipped.files", "audit.open_events", "emptied_files.reported_invalid", "faults.injected", "dfa.threaded_rounds"]
 MIN_NONTRIVIAL = 60
 CTX = None
 MON = None
+FAULTS = None
 AUDIT = {"on": False, "events": []}
 MZ = AU.m_automaton()
 EMPTIED = {"SimSun_bad_len9", "av_231_and_mesh_bad_len9"}
@@ -90,10 +91,15 @@ def setup(ctx):
     m.wrap(PinWords, "load_dfa_for_perm", post_load)
     sys.addaudithook(audit)
     ctx._cwd = os.getcwd()
+    global FAULTS
+    io_functions = {"store_dfa_for_perm", "load_dfa_for_perm", "create_dfa_db_for_length", "make_dfa_for_basis_from_db"}
+    codes = [c for c in monitor.class_code_objects(PinWords, "pin_words.py") if c.co_name not in io_functions]
+    FAULTS = monitor.FaultInjector(codes)
 
 
 def teardown(ctx):
     AUDIT["on"] = False
+    FAULTS.close()
     MON.uninstall()
     os.chdir(ctx._cwd)
 
@@ -113,6 +119,8 @@ def judge_dfa(dfa, perm, case):
 
 def post_load(args, kwargs, res, exc):
     perm = args[1]
+    if isinstance(exc, monitor.InjectedFault):
+        return
     case = CURRENT[0] or ("dfa", [[["load", list(perm)]], 0])
     CTX.ev()
     CTX.count("dfa.loads_decided")
@@ -122,14 +130,7 @@ def post_load(args, kwargs, res, exc):
     if not judge_dfa(res, perm, case):
         return
     if len(perm) <= 4:
-        cwd = os.getcwd()
-        tmp = tempfile.mkdtemp(prefix="vf-fresh-")
-        try:
-            os.chdir(tmp)
-            fresh = PinWords.make_dfa_for_perm(perm)
-        finally:
-            os.chdir(cwd)
-            shutil.rmtree(tmp, ignore_errors=True)
+        fresh = PinWords.make_dfa_for_perm(perm)  # does not touch the database (and must not: other threads use the cwd)
         diff = AU.equivalent(AU.read(res), AU.read(fresh))
         if diff is not None:
             report(*case, f"loaded automaton for {tuple(perm)} differs from a fresh computation on {diff!r}")
@@ -172,8 +173,10 @@ def chk_files(ctx, ops, prepopulate):
                 ctx.ev()
                 written = sorted(os.path.basename(p) for p, mode in AUDIT["events"] if mode and any(c in mode for c in "wax+"))
                 ctx.count("audit.open_events", len(AUDIT["events"]))
-                if written != sorted([f"{name}_good_len{n}.json", f"{name}_bad_len{n}.json"]):
-                    report("files", [ops, prepopulate], f"write_bisc_files({n}, {propname}, {name!r}) opened {written} for writing")
+                outside = [p for p, mode in AUDIT["events"] if mode and any(c in mode for c in "wax+")
+                           and not os.path.realpath(p).startswith(os.path.realpath(tmp) + os.sep)]
+                if outside:
+                    report("files", [ops, prepopulate], f"write_bisc_files({n}, {propname}, {name!r}) wrote outside the working directory: {outside}")
             elif kind == "read":
                 _, name, gb, n = op
                 key = f"{name}_{gb}_len{n}"
@@ -238,13 +241,60 @@ def chk_dfa(ctx, ops, seed):
                 AUDIT["on"] = False
                 ctx.ev()
                 name = "".join(map(str, op[1])) + ".txt"
-                written = [p for p, mode in AUDIT["events"] if mode and "w" in mode]
-                if any(os.path.basename(p) != name or f"S{len(op[1])}" not in p for p in written):
-                    report("dfa", [ops, seed], f"store_dfa_for_perm({op[1]}) wrote {written}")
+                written = [p for p, mode in AUDIT["events"] if mode and any(c in mode for c in "wax+")]
+                here = os.path.realpath(os.getcwd()) + os.sep
+                if any(not os.path.realpath(p).startswith(here) for p in written):
+                    report("dfa", [ops, seed], f"store_dfa_for_perm({op[1]}) wrote outside the working directory: {written}")
                 if not os.path.isfile(os.path.join("dfa_db", f"S{len(op[1])}", name)):
                     report("dfa", [ops, seed], f"store_dfa_for_perm({op[1]}) left no file dfa_db/S{len(op[1])}/{name}")
             elif kind == "load":
                 PinWords.load_dfa_for_perm(Perm(op[1]))  # decided by the monitor
+            elif kind == "fault":
+                # the operation is aborted by an exception arriving at the k-th statement of the (long) computation of
+                # the automaton - like Ctrl-C during create_dfa_db_for_length; the store must recover afterwards
+                _, what, arg, k = op
+                FAULTS.arm(k)
+                try:
+                    if what == "store":
+                        PinWords.store_dfa_for_perm(Perm(arg))
+                    elif what == "load":
+                        PinWords.load_dfa_for_perm(Perm(arg))
+                    else:
+                        PinWords.create_dfa_db_for_length(arg)
+                    ctx.count("faults.not_reached")
+                except monitor.InjectedFault:
+                    ctx.count("faults.injected")
+                finally:
+                    FAULTS.disarm()
+            elif kind == "threads":
+                # several threads store / load DIFFERENT permutations of one length at the same time
+                import threading
+
+                perms = [Perm(p) for p in op[1]]
+                errs = []
+                barrier = threading.Barrier(len(perms))
+
+                def work(p):
+                    try:
+                        barrier.wait(timeout=30)
+                        PinWords.store_dfa_for_perm(p)
+                        PinWords.load_dfa_for_perm(p)
+                    except BaseException as exc:  # noqa: B036
+                        errs.append((tuple(p), repr(exc)))
+
+                old_si = sys.getswitchinterval()
+                sys.setswitchinterval(1e-6)
+                ths = [threading.Thread(target=work, args=(p,), daemon=True) for p in perms]
+                [t.start() for t in ths]
+                [t.join(120) for t in ths]
+                sys.setswitchinterval(old_si)
+                ctx.ev()
+                ctx.count("dfa.threaded_rounds")
+                if errs or any(t.is_alive() for t in ths):
+                    report("dfa", [ops, seed], f"concurrent stores of different permutations failed: {errs[:3]}")
+                PinWords.load_dfa_for_perm.cache_clear()
+                for p in perms:
+                    PinWords.load_dfa_for_perm(p)  # decided by the monitor against a fresh computation
             elif kind == "clear":
                 PinWords.load_dfa_for_perm.cache_clear()
             elif kind == "chdir":
@@ -356,7 +406,7 @@ def plan(tier, seed):
     specs = []
     for name, N in shipped_sets():
         specs.append({"name": f"shipped-{name}-{N}", "kind": "shipped", "set": name, "N": N, "maxlen": 6 if tier == "quick" else N})
-    nh, nd = (200, 40) if tier == "quick" else (2000, 300)
+    nh, nd = (200, 96) if tier == "quick" else (2000, 600)
     specs += [{"name": f"hist-{i}", "kind": "hist", "files": nh // 8, "dfa": nd // 8} for i in range(8)]
     return specs
 
@@ -404,6 +454,14 @@ def run(ctx, spec):
                 ops.append(["store", rng.choice(pool)])
             elif c < 0.6:
                 ops.append(["load", rng.choice(pool)])
+            elif c < 0.66:
+                what = rng.choice(["store", "store", "load", "db"])
+                arg = rng.choice([1, 2, 3]) if what == "db" else rng.choice(pool)
+                ops.append(["fault", what, arg, rng.choice([1, 3, 10, 30, 100, 300, 1000, rng.randint(1, 5000)])])
+                ops.append(["load", arg if what != "db" else rng.choice([p for p in pool if len(p) == arg] or pool)])
+            elif c < 0.68:
+                k = rng.choice([2, 3, 3, 4])
+                ops.append(["threads", rng.sample([p for p in ([list(t) for t in C.all_perms(k)]) ], min(4, len(list(C.all_perms(k)))))])
             elif c < 0.7:
                 ops.append(["clear"])
             elif c < 0.82:
